@@ -152,6 +152,74 @@ def item(args):
     return out
 
 
+def sym_kwik(args):
+    """[S over datasets AND schemes, P over pivot sequences]: KwikSortRandom on a SymDataset"""
+    n, m = args
+    from vf import symds
+    import corankco.algorithms.kwiksort.kwiksortrandom as KR
+    sweep.install()
+    symds.install_kernel_dispatcher()
+    symds.install_kwik_dispatcher()
+    out = []
+    ds = symds.SymDataset(n, m)
+    B, T = fork.scheme_vars()
+    sc = fork.make_scheme(B, T)
+    tab = ds.cost_table(B, T)
+    pref = {(x, y): pref_z(tab[x][y][0], tab[x][y][1], tab[x][y][2]) for x in range(n) for y in range(n) if x != y}
+    ws = spec.level_vectors(n)
+    ex = fork.Explorer(fork.valid_scheme(B, T) + ds.constraints(), max_paths=int(2e5), timeout_ms=120000)
+
+    def pay(ctx, mdl, what, cls):
+        return {"signature": {"site": "KwikSortRandom(symbolic dataset)", "class": cls}, "what": what, "check": cls, "config": "KwikSortRandom", "flag": True,
+                "rankings": shapes.raw_json(ds.levels_from(mdl), ds.names), "scheme": fork.scheme_values(mdl, B, T),
+                "choices": [c for c in ctx.choices if c[0] == "pivot"]}
+
+    def path(ctx):
+        steps, logging_choice, inner = make_step_logger()
+        KR.choice = logging_choice
+        try:
+            alg, _ = sweep.make_config("KwikSortRandom", [])
+            cons = alg.compute_consensus_rankings(ds, sc, True)
+            lv = shapes.ranking_levels(cons.consensus_rankings[0], ds.names)
+        except harness.HarnessError:
+            raise
+        except harness.Inconclusive:
+            raise
+        except Exception as e:  # noqa
+            ctx._ensure_model()
+            out.append(pay(ctx, ctx.model, f"raised {type(e).__name__}: {e}", "raises"))
+            return
+        finally:
+            KR.choice = inner
+        if any(v == -1 for v in lv):
+            ctx._ensure_model()
+            out.append(pay(ctx, ctx.model, "element missing from the consensus", "placement"))
+            return
+        conj = []
+        for seq, piv in steps:
+            p = piv.value - 1
+            for el in seq:
+                e = el.value - 1
+                if e != p:
+                    conj.append(pref[(e, p)] == (-1 if lv[e] < lv[p] else 1 if lv[e] > lv[p] else 0))
+        mdl = ctx.prove(z3.And(*conj)) if conj else None
+        if mdl is not None:
+            out.append(pay(ctx, mdl, f"an element is not placed relative to its step's pivot by the cheapest placement (result {spec.buckets_of(lv)})", "placement"))
+            return
+        others = []
+        for w in ws:
+            if all((w[x] < w[y]) == (lv[x] < lv[y]) and (w[x] == w[y]) == (lv[x] == lv[y]) for x, y in itertools.combinations(range(n), 2)):
+                continue
+            others.append(z3.Not(z3.And(*[pref[(x, y)] == (-1 if w[x] < w[y] else 1 if w[x] > w[y] else 0) for x, y in itertools.permutations(range(n), 2)])))
+        if others:
+            mdl = ctx.prove(z3.And(*others))
+            if mdl is not None:
+                out.append(pay(ctx, mdl, f"preferences cohere into another ranking than the result {spec.buckets_of(lv)}", "coherent"))
+    ex.explore(path)
+    STATS.sample({"symbolic dataset": f"all datasets with n={n}, m={m}", "pivots": "all sequences", "scheme": "12 symbolic reals", "paths": STATS.paths})
+    return out
+
+
 def run(run):
     sweep.install()
     if run.thorough:
@@ -175,6 +243,9 @@ def run(run):
         items.append(("KwikSortRandom", lvs, sweep.NAMINGS[3][i % 3], True, ["history", i % 3]))
     run.bounds["history scenario (aggregate, remove one element in place, aggregate again with the same object)"] = len(hist)
     run.pmap("item", item, items, chunksize=2)
+    symb = [(2, 2), (3, 1), (3, 2)] + ([(2, 3), (3, 3)] if run.thorough else [])
+    run.bounds["KwikSort on symbolic datasets [S over datasets and schemes, P over pivots] (n, m)"] = symb
+    run.pmap("sym_kwik", sym_kwik, symb)
     run.extra["work_items"] = len(items)
 
 
